@@ -129,11 +129,13 @@ package types
 //@ func (Mapping).Merge
 //@   nopanic[C16]
 //@   requires m != nil || (forall k string :: !has(o, k))
+//@   assigns m.*
 //@   ensures[C16] result == m
 //@   ensures[C16] forall k string :: old(has(m, k)) ==> has(m, k) && m[k] == old(m[k])
 //@   ensures[C16] forall k string :: !old(has(m, k)) ==> (has(m, k) <==> old(has(o, k)))
 //@   ensures[C16] forall k string :: !old(has(m, k)) && old(has(o, k)) ==> m[k] == old(o[k])
 //@   loop 1
+//@     invariant frame()
 //@     invariant m != o ==> forall k string :: has(o, k) <==> old(has(o, k))
 //@     invariant m != o ==> forall k string :: has(o, k) ==> o[k] == old(o[k])
 //@     invariant forall k string :: old(has(m, k)) ==> has(m, k) && m[k] == old(m[k])
@@ -168,9 +170,11 @@ package types
 //@   nopanic[C16]
 //@   ensures[C16] result != nil && fresh(result)
 //@   ensures[C16] forall k string :: has(result, k) <==> (has(mapping, k) && mapping[k] != nil)
+//@   ensures[C16] forall k string :: has(result, k) ==> result[k] == deref(mapping[k])
 //@   loop 1
 //@     invariant labels != nil && fresh(labels)
 //@     invariant forall k string :: has(labels, k) <==> (seen(k) && has(mapping, k) && mapping[k] != nil)
+//@     invariant forall k string :: has(labels, k) ==> labels[k] == deref(mapping[k])
 
 //@ func (Labels).Add
 //@   nopanic[C16]
@@ -188,10 +192,12 @@ package types
 //@   ensures[C16] result != nil && fresh(result)
 //@   ensures[C16] forall k string :: has(result, k) <==> has(l, k)
 //@   ensures[C16] forall k string :: has(result, k) ==> result[k] != nil
+//@   ensures[C16] forall k string :: has(result, k) ==> fresh(result[k]) && deref(result[k]) == l[k]
 //@   loop 1
 //@     invariant mapping != nil && fresh(mapping)
 //@     invariant forall k string :: has(mapping, k) <==> (seen(k) && has(l, k))
 //@     invariant forall k string :: has(mapping, k) ==> mapping[k] != nil
+//@     invariant forall k string :: has(mapping, k) ==> fresh(mapping[k]) && allocated(mapping[k]) && deref(mapping[k]) == l[k]
 
 // label value can be a string | number | boolean | null: null is the empty label, a string is itself
 //@ func labelValue
@@ -203,6 +209,8 @@ package types
 //@ func (*Labels).DecodeMapstructure
 //@   nopanic[C03]
 //@   ensures[C03] err == nil <==> (isMap(value) || isList(value))
+// KEY=VALUE list entries are cut at the first "=" (see MappingWithEquals.DecodeMapstructure)
+//@   callsite[C03,C16] strings.Cut : arg1 == "="
 // inactive: the spec language has no dereference of a pointer to a map/slice/scalar (*l, *m[k]), and
 // fmt.Sprint of a boxed string is an unconstrained string, so the decoded value cannot be stated:
 //@?  ensures[C03] isMap(value) ==> forall k string :: has(*l, k) <==> has(asMap(value), k)
@@ -213,6 +221,10 @@ package types
 //@ func (*MappingWithEquals).DecodeMapstructure
 //@   nopanic[C03]
 //@   ensures[C03] err == nil <==> (isMap(value) || isList(value))
+// KEY=VALUE list entries are cut at the FIRST "=" (everything after it, further "=" included, is the value), so
+// that the list form denotes the same mapping as `KEY: VALUE`; the functional statement over the stored *string
+// values is not expressible (fmt.Sprint is an arbitrary string), the grammar rule is asserted where the cut is made
+//@   callsite[C03,C16] strings.Cut : arg1 == "="
 //@?  ensures[C03] isMap(value) ==> forall k string :: has(*m, k) <==> has(asMap(value), k)
 //@?  ensures[C03] isMap(value) ==> forall k string :: has(*m, k) ==> ((*m)[k] == nil <==> asMap(value)[k] == nil)
 //@?  ensures[C03] isList(value) ==> (list ["k=v","k2"] and map {k:v,k2:null} decode to the same value)   // needs *m and fmt.Sprint(string)==string
